@@ -6,6 +6,7 @@ import (
 	"runtime"
 	"strings"
 	"sync"
+	"sync/atomic"
 	"testing"
 	"time"
 
@@ -49,6 +50,26 @@ func (r *c21Rec) snapshot() []PeerConnectionState {
 	defer r.mu.Unlock()
 
 	return append([]PeerConnectionState{}, r.seen...)
+}
+
+// c21Gate makes the connection's ICE-state handler (user code running on a goroutine the connection started) block
+// from the moment the closers start until the gate opens: a GracefulClose that returns while such an invocation is
+// still in flight has returned although "a goroutine started by the connection is still running".
+type c21Gate struct {
+	closing  atomic.Bool
+	inflight atomic.Int32
+	blocked  atomic.Int32
+	open     chan struct{}
+}
+
+func (g *c21Gate) handler(ICEConnectionState) {
+	if !g.closing.Load() {
+		return
+	}
+	g.inflight.Add(1)
+	g.blocked.Add(1)
+	<-g.open
+	g.inflight.Add(-1)
 }
 
 // c21PionGoroutines returns the stacks of goroutines that are running pion code and do not belong to the harness.
@@ -127,6 +148,14 @@ func TestVerifC21(t *testing.T) { //nolint:cyclop,gocognit,maintidx
 		a, b := rigMustPC(rigOpts{Interceptors: r.Bool()}), rigMustPC(rigOpts{Interceptors: r.Bool()})
 		a.OnConnectionStateChange(recA.handler)
 		b.OnConnectionStateChange(recB.handler)
+		gateA, gateB := &c21Gate{open: make(chan struct{})}, &c21Gate{open: make(chan struct{})}
+		useGate := c.rep%2 == 0
+		if useGate {
+			a.OnICEConnectionStateChange(gateA.handler)
+			b.OnICEConnectionStateChange(gateB.handler)
+		}
+		gateOf := map[*PeerConnection]*c21Gate{a: gateA, b: gateB}
+		var gateViol atomic.Int32
 		track, err := NewTrackLocalStaticRTP(RTPCodecCapability{MimeType: MimeTypeVP8}, "v", "s")
 		if err != nil {
 			t.Fatal(err)
@@ -226,9 +255,19 @@ func TestVerifC21(t *testing.T) { //nolint:cyclop,gocognit,maintidx
 					_ = pc.Close()
 				} else {
 					_ = pc.GracefulClose()
+					if gateOf[pc].inflight.Load() > 0 {
+						gateViol.Add(1)
+					}
 				}
 			}(pc, kind)
 		}
+		gateA.closing.Store(true)
+		gateB.closing.Store(true)
+		go func() { // the blocked handler invocations are let go 30 ms after the closers started
+			time.Sleep(30 * time.Millisecond)
+			close(gateA.open)
+			close(gateB.open)
+		}()
 		close(start)
 		returned := make(chan struct{})
 		go func() { wg.Wait(); close(returned) }()
@@ -250,6 +289,11 @@ func TestVerifC21(t *testing.T) { //nolint:cyclop,gocognit,maintidx
 		detail := map[string]any{"case": label, "rep": c.rep}
 		viol := func(sig, what string) { run.Violation(sig, label+": "+what, i, detail) }
 
+		if n := gateViol.Load(); n > 0 {
+			viol("gracefulclose-returned-while-ice-handler-running",
+				fmt.Sprintf("%d GracefulClose call(s) returned while an OnICEConnectionStateChange invocation (a goroutine started by the connection) was still in flight", n))
+		}
+		run.Count("ice_handler_invocations_blocked_during_close", int(gateA.blocked.Load()+gateB.blocked.Load()))
 		// final states
 		if s := a.SignalingState(); s != SignalingStateClosed {
 			viol("signaling-not-closed", "SignalingState is "+s.String())
@@ -278,13 +322,27 @@ func TestVerifC21(t *testing.T) { //nolint:cyclop,gocognit,maintidx
 		}
 		// make both peers gracefully closed (idempotent by the property) so the goroutine census is meaningful
 		endClosers := make(chan struct{})
-		go func() { _ = a.GracefulClose(); _ = b.GracefulClose(); close(endClosers) }()
+		go func() {
+			_ = a.GracefulClose()
+			if gateA.inflight.Load() > 0 {
+				gateViol.Add(100)
+			}
+			_ = b.GracefulClose()
+			if gateB.inflight.Load() > 0 {
+				gateViol.Add(100)
+			}
+			close(endClosers)
+		}()
 		select {
 		case <-endClosers:
 		case <-time.After(wd):
 			run.Inconclusive("final-gracefulclose-did-not-return:" + label)
 
 			continue
+		}
+		if n := gateViol.Load(); n >= 100 {
+			viol("gracefulclose-returned-while-ice-handler-running:after-close",
+				"a GracefulClose issued after the closers had returned came back while an OnICEConnectionStateChange invocation was still in flight")
 		}
 		// state stays closed; handler sequence has nothing after the first closed
 		time.Sleep(6 * time.Millisecond)
